@@ -67,7 +67,7 @@ def main():
                 try:
                     j = json.load(open(os.path.join(ROOT, rp)))
                     kinds.append(j.get("kind"))
-                    if "replay" not in res and not (j.get("kind") == "proof-obligation" and "obligations not discharged" in str(j.get("broken"))):
+                    if "replay" not in res and not (j.get("kind") == "proof-obligation" and ("obligations not discharged" in str(j.get("broken")) or "no Properties/" in str(j.get("broken")))):
                         res["replay"] = {k: (str(j.get(k))[:300]) for k in ("kind", "op", "args", "impl_output", "model_output", "broken")}
                         res["detected"] = (rc == 1)
                     os.remove(os.path.join(ROOT, rp))
